@@ -1,0 +1,30 @@
+//go:build verif
+
+// Package verifhook contains named hook points used by the external runtime
+// verification harness.  It is only active with the "verif" build tag.
+package verifhook
+
+import "sync/atomic"
+
+// callback is the currently installed hook callback.
+var callback atomic.Pointer[func(point string)]
+
+// Set installs f as the callback for all hook points.  A nil f removes the
+// callback.
+func Set(f func(point string)) {
+	if f == nil {
+		callback.Store(nil)
+
+		return
+	}
+
+	callback.Store(&f)
+}
+
+// Hit calls the installed callback, if any, with the name of the hook point.
+func Hit(point string) {
+	f := callback.Load()
+	if f != nil {
+		(*f)(point)
+	}
+}
